@@ -1,5 +1,6 @@
 import FlowRecordProofs.Lemmas.Msgpack
 import FlowRecordProofs.Lemmas.Framing
+import FlowRecordProofs.Lemmas.MsgpackPrefix
 import FlowRecord.Model.Stream
 /-!
 C04 — a damaged stream yields an intact prefix, never altered records. Property theorems only.
@@ -77,6 +78,19 @@ theorem C04_partial_not_complete (p : Bytes) (hp : IsPartialFrame p) :
     frame can only yield the record it was written from. -/
 theorem C04_complete_frame_decodes (v : MVal) (hw : WF v) : decode (enc v) = .ok v :=
   decode_enc v hw
+
+/-- M5: a frame body that was only partly written never decodes to a value: for every well-formed value (any depth,
+    any size class) and EVERY proper prefix of its encoding, the document decoder reports "incomplete input" — so
+    the reader raises and yields nothing for the cut frame; it can never yield a partially filled record. -/
+theorem C04_truncated_body_rejected (reg : Registry) (v : MVal) (k : Nat) (hw : WF v) (hk : k < (enc v).length) :
+    decode ((enc v).take k) = .incomplete ∧ decodeFrame reg ((enc v).take k) = .error .incomplete := by
+  have h := decode_take v k hw hk
+  exact ⟨h, by simp [decodeFrame, h]⟩
+
+/-- The same at the level of the byte decoder with any amount of fuel that suffices for the complete value. -/
+theorem C04_truncated_value_incomplete (v : MVal) (f k : Nat) (hw : WF v) (hf : depth v ≤ f)
+    (hk : k < (enc v).length) : dec f ((enc v).take k) = .incomplete :=
+  dec_take v f k hw (Or.inl hf) hk
 
 /-- Inst: the facts read off the current source that the model's reader relies on. -/
 theorem C04_inst :
